@@ -1,6 +1,7 @@
 import HH.Proofs.MachineLemmas
 import HH.Props.C05
 import HH.Props.C02
+import HH.Props.C01
 /-!
 # C12 — std `Hasher` / `io::Write` / `BuildHasher` adapters are faithful
 
@@ -24,6 +25,13 @@ theorem finish_is_hash_of_written (b : Backend) (k : V4) (h : Hasher) (hh : Hash
   have s := C05.streaming (Hasher.portable (P.new k)) hp.2 writes .w64
   simp only [Hasher.finalize, Digest.d64.injEq] at s
   rw [s]; rfl
+
+/-- … which is the HighwayHash specification's 64-bit digest of those bytes (composition with C01) -/
+theorem finish_is_spec (b : Backend) (k : V4) (h : Hasher) (hh : Hasher.new b k = some h)
+    (writes : List (List (BitVec 8))) :
+    (writes.foldl Hasher.append h).finalize64 = Spec.hash64 k writes.flatten := by
+  rw [finish_is_hash_of_written b k h hh writes]
+  exact C01.hash64_eq_spec k writes.flatten
 
 /-- `finish` does not change the hasher: it can be called repeatedly and between writes -/
 theorem finish_pure (env : Env) (w : World) (h : Nat) : (step env w (.finish h)).1 = w :=
